@@ -26,8 +26,11 @@ def hierarchy(rng):
         stack.append(path)
         names = [n for n in LOCAL if rng.random() < (0.55 if n not in ('load', 'in', 'max', 'm_last', 'first') else 0.3) and '.' not in n] or ['clk']
         for n in names:
-            vid = 'i%d' % k
-            k += 1
+            if sigs and rng.random() < 0.15:
+                vid = rng.choice(sigs)[1]          # a second name for an identifier code declared earlier (the two always read the same)
+            else:
+                vid = 'i%d' % k
+                k += 1
             header.append(['var', 'wire', 4, vid, n.replace('<', '[').replace('>', ']'), None])
             sigs.append((path + '.' + n, vid))
     add_scope('top')
@@ -44,10 +47,12 @@ def hierarchy(rng):
     vals = {}
     for i in range(N):
         dump.append(['time', i * 5])
+        byid = {}
         for full, vid in sigs:
-            v = rng.getrandbits(4)
-            dump.append(['vector', bin(v)[2:], vid])
-            vals.setdefault(full, []).append(v)
+            if vid not in byid:
+                byid[vid] = rng.getrandbits(4)
+                dump.append(['vector', bin(byid[vid])[2:], vid])
+            vals.setdefault(full, []).append(byid[vid])
     return {'header': header, 'dump': dump}, vals, [s for s, _ in sigs]
 
 
